@@ -501,6 +501,18 @@ Proof.
   - apply IH; assumption.
 Qed.
 
+(* C11 for the one mutable class of this slice: after any assignment sequence the reported
+   length is the length of the octets, and the octets are those of a freshly built field *)
+Lemma ubf_len_tracks ops f : ubf_wf f -> Forall op_wf ops ->
+  let f' := fold_left ubf_apply ops f in
+  len (ubf_as_bytes f') = ubf_pylen f' /\ ubf_new (ubf_val f') (ubf_len f') = Ok f'.
+Proof.
+  intros Hf Hops. destruct (ubf_history_wf ops f Hf Hops) as [W _]. cbv zeta. split.
+  - destruct W as (Hw & _ & Hb). unfold ubf_as_bytes, ubf_pylen. rewrite Hb.
+    apply layout_len. apply width_ok_nonneg. assumption.
+  - apply ubf_wf_iff. assumption.
+Qed.
+
 (* ================= C09 / C10 lemmas for the byte-field decoders ================= *)
 
 Lemma sized_total w s : ok_or_documented (sized_from_bytes w s).
